@@ -7,8 +7,31 @@ use lc3_ensemble::asm::ObjectFile;
 use serde_json::{json, Value};
 
 pub fn decode(tape: &[u32]) -> Vec<SrcFile> {
+    use crate::model::stmt::{render, MKind, MStmt, RenderOpts};
     let mut t = Tape::new(tape);
-    gen_link_set(&mut t, &LinkCfg { max_files: 3, conflict_8: 0, overlaps: false, wild_render: true })
+    let mut files = gen_link_set(&mut t, &LinkCfg { max_files: 3, conflict_8: 0, overlaps: false, wild_render: true });
+    // (read after the set, so that tapes stored before this was added decode to the same files)
+    // a quarter of the sets contain a file without any statement that occupies memory (only an `.external`, only an
+    // empty block, or both): it has text and possibly a label, but an empty line-to-address map
+    if t.chance(1, 4) {
+        let v = t.pick(3);
+        let mut prog: Vec<MStmt> = vec![];
+        if v != 0 {
+            prog.push(MStmt { labels: vec![], kind: MKind::External("ZZNOADDR".into()) });
+        }
+        if v != 1 {
+            prog.push(MStmt { labels: vec![], kind: MKind::Orig(0xE000) });
+            prog.push(MStmt { labels: vec![], kind: MKind::End });
+        }
+        let model = crate::model::asm::asm_model(&prog);
+        if model.ok() {
+            let rendered = render(&prog, &mut t, RenderOpts { plain: false, wild_comments: true });
+            files.truncate(2);
+            let at = t.pick(files.len() + 1);
+            files.insert(at, SrcFile { prog, rendered, model });
+        }
+    }
+    files
 }
 
 fn link_tree(tr: &crate::props::c20::Tree, objs: &[ObjectFile]) -> Result<ObjectFile, String> {
@@ -30,6 +53,10 @@ pub fn check_files(files: &[SrcFile], st: &mut Stats) -> Result<(), String> {
     }
     let objs: Vec<ObjectFile> = files.iter().map(|f| build_obj(f, true)).collect::<Result<_, _>>()?;
     st.class(&format!("files:{}", files.len()));
+    if let Some(i) = files.iter().position(|f| f.model.stmt_addr.is_empty()) {
+        st.class("file-without-addressed-statement");
+        st.class(if i == 0 { "file-without-addressed-statement:first" } else { "file-without-addressed-statement:later" });
+    }
     let second_has = files[1..].iter().any(|f| !f.model.labels.is_empty() && !f.model.stmt_addr.is_empty());
     if second_has {
         st.nontrivial(&files.iter().map(|f| f.rendered.text.clone()).collect::<Vec<_>>());
@@ -79,13 +106,13 @@ pub fn describe(tape: &[u32]) -> Value {
 
 pub fn run(ctx: &Ctx) -> Outcome {
     let mut out = Outcome::new(
-        "pairs and triples of generated files (random surface syntax, labels, externals) assembled with debug symbols and linked in every order and bracketing; for every (line, address) of every input the linked rev_lookup_line(address) must read the same text \
+        "pairs and triples of generated files (random surface syntax, labels, externals; a quarter of the sets contain a file without any memory-occupying statement: only an .external, only an empty block, or both) assembled with debug symbols and linked in every order and bracketing; for every (line, address) of every input the linked rev_lookup_line(address) must read the same text \
          as the input's line, and every label's get_label_source must slice the combined source to a spelling of the label; an evaluation is one link tree; non-trivial = a non-first file has a label and a mapped line; distinct by file texts",
     );
     let cfg = TapeCfg::new(ctx, 1500, 50_000, 2500);
     out.shards = cfg.shards;
     out.absorb(tape_search(ctx, "main", &cfg, check, describe));
-    out.essential = ["files:2", "files:3", "line-checked", "label-checked"].iter().map(|s| s.to_string()).collect();
+    out.essential = ["files:2", "files:3", "line-checked", "label-checked", "file-without-addressed-statement:first", "file-without-addressed-statement:later"].iter().map(|s| s.to_string()).collect();
     out
 }
 
